@@ -163,6 +163,8 @@ class Opaque(Val):
 # ---------------------------------------------------------------- type descriptors
 def parse_type(t):
     """'int', 'int?', 'bool', 'real', 'enum:Key?', 'ref:Message', 'list:ref:Message', 'list:int' -> (base, arg, opt)"""
+    if t == "?":
+        return "?", None, False
     opt = t.endswith("?")
     if opt:
         t = t[:-1]
@@ -194,6 +196,8 @@ def wrap(term, t, none=None):
         return Ref(term, arg, none=n)
     if base == "list":
         return ListV(term, arg, none=n)
+    if base == "?":
+        return Num(term)               # element type of a still-empty list: nothing can be read from it anyway
     if base == "tok":
         from .tokens import TokV, tok_dec
         return TokV(tok_dec(term))
